@@ -24,9 +24,10 @@ def H(*steps):
     out = []
     for st in steps:
         d = {"act": st[0], "name": [], "name2": [], "ref": [], "pat": [], "lsub": False}
-        if st[0] in ("ListSel", "ListRet"):      # LIST (SUBSCRIBED) ref pat / LIST ref pat RETURN (SUBSCRIBED)
+        if st[0] in ("ListSel", "ListRet", "ListRec"):   # LIST (SUBSCRIBED) .. / .. RETURN (SUBSCRIBED) / (SUBSCRIBED RECURSIVEMATCH) ..
             d.update(act="List", ref=ch(st[1]), pat=ch(st[2]), pats=[ch(st[2])],
-                     sel="SUBSCRIBED" if st[0] == "ListSel" else "", ret="SUBSCRIBED" if st[0] == "ListRet" else "")
+                     sel={"ListSel": "SUBSCRIBED", "ListRec": "SUBSCRIBED RECURSIVEMATCH"}.get(st[0], ""),
+                     ret="SUBSCRIBED" if st[0] == "ListRet" else "")
         elif st[0] in ("List", "Lsub"):
             d.update(ref=ch(st[1]), pat=ch(st[2]), pats=[ch(x) for x in st[2:]], lsub=st[0] == "Lsub")
         elif st[0] == "Rename":
@@ -45,7 +46,10 @@ DIRECTED = {
         ("List", "", "%", "work/%"), ("List", "", "wor", "ol"), ("List", "misc/", "old", "%"),
         ("Subscribe", "work"), ("Subscribe", "misc/old"), ("Lsub", "", "*"), ("List", "", "work", "old"),
         ("ListSel", "", "*"), ("ListRet", "", "*"), ("ListSel", "", "work*"), ("ListRet", "misc/", "%"),
-        ("Delete", "misc/old"), ("ListSel", "", "*"), ("ListRet", "", "*"), ("Unsubscribe", "work"), ("ListRet", "", "%")),
+        ("ListRec", "", "%"), ("ListRec", "", "*"), ("ListRec", "", "misc"), ("Subscribe", "work/sub"), ("ListRec", "", "%"),
+        ("ListRec", "", "work*"),
+        ("Delete", "misc/old"), ("ListSel", "", "*"), ("ListRet", "", "*"), ("ListRec", "", "%"), ("Unsubscribe", "work"),
+        ("ListRet", "", "%"), ("ListRec", "", "%"), ("ListRec", "", "*")),
     # a parent whose only child was renamed away is a leaf again
     "child_renamed_away_then_delete_parent": H(
         ("Create", "top/kid"), ("Rename", "top/kid", "elsewhere"), ("List", "", "*"), ("Delete", "top"), ("List", "", "*"),
